@@ -945,6 +945,61 @@ fn compare(sc: &Scenario, schema: &Schema, rows: &[Vec<RRow>], rb: &ReadBack, p:
     }
 }
 
+/// A write error of the device under the CSV files is reported by the writer: the chain file is
+/// a symbolic link to /dev/full (every physical write fails with ENOSPC). Few rows: the only
+/// physical write is the final flush; many rows: the buffer spills during record_sample. Some call
+/// (record_sample, the chain's finalize, the trace's finalize) has to return or report the error -
+/// otherwise a trace that lost all its rows would be handed back as complete.
+fn csv_write_error_is_reported(p: &mut Partial) {
+    if !std::path::Path::new("/dev/full").exists() {
+        p.count("csv_write_error_check_skipped_no_dev_full", 1);
+        return;
+    }
+    let t = Tweaks { num_tune: 2, num_draws: 400, maxdepth: Some(3), ..Tweaks::default() };
+    let settings = crate::common::runner::diag_nuts(&t);
+    let Ok((rows, _)) = make_rows(&settings, 0, 400, vec![], false) else { return };
+    for n in [1usize, 3, 10, 400] {
+        let math = CpuMath::new(RichDens::new(vec![]));
+        let Ok(dir) = tempfile::tempdir_in(mc_core::verif_root().join(".build")) else { return };
+        if std::os::unix::fs::symlink("/dev/full", dir.path().join("chain_0.csv")).is_err() {
+            return;
+        }
+        p.evaluations += 1;
+        let replay = json!({"rows": n, "chain_file": "symlink to /dev/full"});
+        let outcome = std::panic::catch_unwind(std::panic::AssertUnwindSafe(|| -> Result<bool, String> {
+            let trace = CsvConfig::new(dir.path()).new_trace(&settings, &math).map_err(|e| format!("{e:#}"))?;
+            let mut cs = match trace.initialize_trace_for_chain(0) {
+                Ok(c) => c,
+                Err(_) => return Ok(true),
+            };
+            for row in &rows[..n] {
+                if feed(&mut cs, &settings, row).is_err() {
+                    return Ok(true);
+                }
+            }
+            let fin = cs.finalize();
+            if fin.is_err() {
+                return Ok(true);
+            }
+            match trace.finalize(vec![fin]) {
+                Err(_) => Ok(true),
+                Ok((Some(_), _)) => Ok(true),
+                Ok((None, _)) => Ok(false),
+            }
+        }));
+        match outcome {
+            Ok(Ok(true)) => p.class("csv-write-error-reported".to_string()),
+            Ok(Ok(false)) => p.violation(
+                format!("C14/csv-write-error-not-reported/rows{n}"),
+                format!("{n} rows were recorded into a chain file on a full device; record_sample, finalize and the trace's finalize all reported success"),
+                replay,
+            ),
+            Ok(Err(e)) => p.violation(format!("C14/csv-write-error-setup/rows{n}"), e, replay),
+            Err(pn) => p.violation(format!("C14/writer-panicked/csv-write-error/rows{n}"), panic_msg(&pn), replay),
+        }
+    }
+}
+
 pub fn run(tier: Tier, _replay: Option<String>) -> i32 {
     let mut report = Report::new(
         "C14",
@@ -1041,6 +1096,11 @@ pub fn run(tier: Tier, _replay: Option<String>) -> i32 {
         }
         report.merge(p);
     });
+    {
+        let mut p = Partial::new();
+        csv_write_error_is_reported(&mut p);
+        report.merge(p);
+    }
     report.finish()
 }
 
